@@ -1834,6 +1834,9 @@ class SpaceUpdater(SharedSpaceOperations):
             nodes_removed.append(child)
             self._remove_hook(self._graph, child)
 
+        self.model.refmgr.forget_spaces(
+            [self.manager._graph.to_space(n) for n in nodes_removed])
+
         for _, v in nx.edge_bfs(self.manager._graph, node):
             self._instructions.append(
                 Instruction(self._update_derived_space, (v,))
@@ -2004,6 +2007,19 @@ class ReferenceManager:
 
         if not isinstance(value, Interface):
             self._valid_to_refs.setdefault(id(value), []).append(refdict[name])
+
+    def forget_spaces(self, spaces):
+        """Drop the references defined in ``spaces`` being deleted"""
+        for valid, refs in list(self._valid_to_refs.items()):
+            val = refs[0].interface
+            refs[:] = [r for r in refs
+                       if not any(r.parent is s for s in spaces)]
+            if not refs:
+                del self._valid_to_refs[valid]
+                spec = self._manager.get_spec_from_value(
+                    io_group=self._model.interface, value=val)
+                if spec:
+                    self._manager.del_spec(spec)
 
     def del_all_spec(self):
         specs = self.specs.copy()
